@@ -17,7 +17,7 @@ from .tlc import MachineryFailure
 from .twins import twin_canon, twin_is_gpg_entry, twin_is_hex_key, twin_is_raw_entry
 
 NK, NA, NJ = 8, 3, 3
-BIG = {"NK": 160, "NA": 6, "NJ": 400}
+BIG = {"NK": 1400, "NA": 6, "NJ": 400}
 LIMITS = {"NK": NK, "NA": NA, "NJ": NJ}
 
 
@@ -240,6 +240,59 @@ def library_signed_traces(run, n, owner):
     run.extra["library_signed_envelopes"] = len(traces)
 
 
+def library_signed_big(run, n, owner):
+    """Scale for the signing round trip: one payload signed by the library with up to 1200 keys, forward and in reverse
+    order (the two envelopes must be equal and serialise identically); thresholds 1, N-1, N, N+1 over all signers and
+    threshold 1 over single signers taken from both ends of the insertion order; judged by Trace_Verify (NK = 1400)."""
+    signing, common = lib.cct("signing"), lib.cct("common")
+    fn = lib.cct("authentication").verify_signable
+    keys = gamma.Keys(1200, run.seed, offset=7000)
+    r = random.Random(run.seed * 59 + 3)
+    traces, conc = [], {}
+    LIMITS.update(BIG)
+    try:
+        for tid in range(1, n + 1):
+            P, _ = gamma.make_payloads(r)
+            N = [1030, 129, 1001, 1200, 1000, 300][(tid - 1) % 6]
+            ks = r.sample(range(1, 1201), N)
+            fwd, bwd = signing.wrap_as_signable(P), signing.wrap_as_signable(copy.deepcopy(P))
+            for k in ks:
+                signing.sign_signable(fwd, common.PrivateKey.from_bytes(keys.seeds[k]))
+            for k in reversed(ks):
+                signing.sign_signable(bwd, common.PrivateKey.from_bytes(keys.seeds[k]))
+            if fwd != bwd or twin_canon(fwd) != twin_canon(bwd):
+                run.violation("signing by many keys in two orders gives different envelopes",
+                              {"kind": "sign_order_big", "signers": N, "payload": P})
+            all_auth = [keys.pub[k] for k in ks]
+            calls = [(fwd, all_auth, t) for t in (1, N - 1, N, N + 1)] + [(bwd, all_auth, N)]
+            for k in (ks[0], ks[-1], ks[N // 2]):
+                calls += [(fwd, [keys.pub[k]], 1), (bwd, [keys.pub[k]], 1)]
+            for env, auth, thr in calls:
+                out, exc, _ = lib.call(fn, env, list(auth), thr, gpg=False)
+                run.evaluations += 1
+                ev = alpha_call(env, auth, thr, False, out, must=auth)
+                if ev:
+                    traces.append({"id": len(traces) + 1, "events": [ev]})
+                    conc[len(traces)] = [{"note": f"payload signed by the library with {N} keys ({'forward' if env is fwd else 'reverse'} order); "
+                                                  f"{len(auth)} of them authorized, threshold {thr}", "payload": P, "observed": out, "exc": exc}]
+    finally:
+        LIMITS.update({"NK": NK, "NA": NA, "NJ": NJ})
+    if traces:
+        seen = validate(run, traces, cfg="Trace_Verify_big.cfg")
+        for t in traces:
+            line = seen[(t["id"], 1)]
+            ev = t["events"][0]
+            run._distinct.add("libbig%d" % t["id"])
+            if line["ok"]:
+                run.traces_validated += 1
+            else:
+                o = {"observed": ev["outcome"], "allowed": line["allowed"], "must_ok": line.get("must_ok", True)}
+                if owner(o):
+                    run.violation(f"many signers: verify_signable allowed={'|'.join(line['allowed'])} observed={ev['outcome']} must_ok={o['must_ok']}",
+                                  {"kind": "library_signed_big", "concrete": conc[t["id"]][0], "allowed": line["allowed"]})
+    run.extra["library_signed_big_calls"] = len(traces)
+
+
 def inplace_histories(run, n, owner):
     """Histories on ONE envelope object: verify, edit the payload in place, re-sign (library signer or an independent
     one), verify again ... every call judged from its own arguments."""
@@ -336,34 +389,51 @@ def fixture_traces(run, owner):
 
 
 def big_envelopes(run, n, owner):
-    """Scale: envelopes with up to 150 authorized keys, thresholds up to the number of keys and up to 400 junk / foreign
-    entries, judged by Trace_Verify.tla instantiated with NK = 160, NJ = 400."""
+    """Scale: envelopes with up to 150 authorized keys, thresholds up to the number of keys, up to 400 junk entries and up
+    to 1100 entries under well-formed keys that are NOT authorized (each a genuinely valid signature by that foreign
+    key), in shuffled / fillers-first / fillers-last insertion order, sometimes with a 40 kB OpenPGP header; judged by
+    Trace_Verify.tla instantiated with NK = 1400, NJ = 400."""
     fn = lib.cct("authentication").verify_signable
     keys = gamma.Keys(150, run.seed, offset=2000)
+    foreign = gamma.Keys(1100, run.seed, offset=5000)
     r = random.Random(run.seed * 53 + 29)
     traces, conc = [], {}
+    long_hdr = b"\x04\x00\x16\x08" + bytes(range(256)) * 157
     LIMITS.update(BIG)
     try:
         for tid in range(1, n + 1):
             P, _ = gamma.make_payloads(r)
             Pb = twin_canon(P)
-            nk = r.choice([9, 33, 64, 65, 127, 128, 129, 150])
+            nk = r.choice([1, 9, 33, 64, 65, 127, 128, 129, 150])
             ks = r.sample(range(1, 151), nk)
             gpg = r.random() < 0.5
-            hdr = r.choice(gamma.HEADERS)
+            hdr = long_hdr if r.random() < 0.15 else r.choice(gamma.HEADERS)
             nvalid = r.choice([0, 1, nk // 2, nk - 1, nk])
             valid = set(r.sample(ks, nvalid))
-            sigs = {}
+
+            def good(kk, k):
+                return ({"other_headers": hdr.hex(), "signature": kk.sign(k, crypto.gpg_digest(Pb, hdr)).hex()} if gpg
+                        else {"signature": kk.sign(k, Pb).hex()})
+            own = []
             for k in ks:
                 if k in valid:
-                    sigs[keys.pub[k]] = ({"other_headers": hdr.hex(), "signature": keys.sign(k, crypto.gpg_digest(Pb, hdr)).hex()} if gpg
-                                         else {"signature": keys.sign(k, Pb).hex()})
+                    own.append((keys.pub[k], good(keys, k)))
                 elif r.random() < 0.5:
-                    sigs[keys.pub[k]] = {"signature": gamma.flip_bit(keys.sign(k, Pb), r).hex()}
+                    own.append((keys.pub[k], {"signature": gamma.flip_bit(keys.sign(k, Pb), r).hex()}))
+            fill = []
             for j in range(r.choice([0, 10, 255, 256, 300])):
-                sigs["junk-%d-%s" % (j, "x" * (j % 7))] = r.choice([{"signature": "0" * 128}, "x", None, j])
-            items = list(sigs.items())
-            r.shuffle(items)
+                fill.append(("junk-%d-%s" % (j, "x" * (j % 7)), r.choice([{"signature": "0" * 128}, "x", None, j])))
+            nforeign = r.choice([0, 0, 3, 257, 300, 1001, 1100]) if tid > 3 else [257, 1100, 1001][tid - 1]
+            for j in r.sample(range(1, 1101), nforeign):
+                fill.append((foreign.pub[j], good(foreign, j)))
+            order = r.choice(["shuffled", "fillers_first", "fillers_last"])
+            r.shuffle(own)
+            r.shuffle(fill)
+            items = own + fill
+            if order == "shuffled":
+                r.shuffle(items)
+            elif order == "fillers_first":
+                items = fill + own
             env = {"signatures": dict(items), "signed": P}
             auth = [keys.pub[k] for k in ks]
             r.shuffle(auth)
@@ -373,7 +443,8 @@ def big_envelopes(run, n, owner):
                 ev = alpha_call(env, auth, thr, gpg, out)
                 if ev:
                     traces.append({"id": len(traces) + 1, "events": [ev]})
-                    conc[len(traces)] = [{"note": f"{nk} authorized keys, {nvalid} valid signers, {len(sigs)} entries, threshold {thr}, gpg={gpg}", "observed": out, "exc": exc}]
+                    conc[len(traces)] = [{"note": f"{nk} authorized keys, {nvalid} valid signers, {len(items)} entries ({nforeign} validly signed by keys that are "
+                                                  f"not authorized, order {order}), header of {len(hdr)} bytes, threshold {thr}, gpg={gpg}", "observed": out, "exc": exc}]
     finally:
         LIMITS.update({"NK": NK, "NA": NA, "NJ": NJ})
     if traces:
